@@ -295,9 +295,13 @@ def run_plan(plan, seed, choices=None):
                 continue
             if stp['kind'] == 'false_removed':
                 sim.probe('removed_event_for_listed_peer')
+                n_add0, n_rm0 = len([e for e in w.recorder.events if e[2] == 'add']), len([e for e in w.recorder.events if e[2] == 'remove'])
                 ctrl.push_event('TOPOLOGY_CHANGE', 'REMOVED_NODE', fc.nodes[stp['node']].addr, 9042)
                 w.sleep(1.5)
-                check('step %d (REMOVED_NODE event for %s, still listed in the peers table)' % (k, fc.nodes[stp['node']].addr), {'membership': True})
+                # (membership changed only if the driver actually removed or re-added a host: the event may name a peer whose row it
+                # had already discarded as invalid, and then nothing changes - the token map is whatever it was before)
+                reacted = (len([e for e in w.recorder.events if e[2] == 'add']), len([e for e in w.recorder.events if e[2] == 'remove'])) != (n_add0, n_rm0)
+                check('step %d (REMOVED_NODE event for %s, still listed in the peers table)' % (k, fc.nodes[stp['node']].addr), {'membership': reacted})
                 continue
             if stp['via'] == 'event' and stp['kind'] in ('add', 'remove'):
                 sim.probe('event_driven_refresh')
